@@ -74,12 +74,14 @@ def report(R, cases, viol):
 def run(R):
     R.trusted += ["hand-written model coq/Model/Monetary.v of AllocateTokens / InflationPossible / distributor EndBlocker snapshots / ubi proposal handler + EndBlocker + ProcessUBIRecord / tokens keeper + msg server + proposal handler / layer2 MintIssueTx + MintBurnTx, tied to the code by the differential run",
                   "Base/Dec.v model of sdk.Dec Mul/Quo/MulInt/TruncateInt (banker's rounding, 315-bit overflow panic), Base/Prelude.v wrap64 / as_int64",
-                  "translator harness/cmd/gen_mintburn (go/ast; call sites x.MintCoins / x.BurnCoins with 3 arguments, keeper resolved from struct field declarations); the reviewed classification table sanctioned_sites in Proofs/Monetary.v",
+                  "translator harness/cmd/gen_mintburn (go/ast; call sites x.MintCoins / x.BurnCoins with 3 arguments, keeper resolved from struct field declarations; five guard shapes matched as normalised source text against the two shapes the model knows, anything else is a translator error); the reviewed classification table sanctioned_sites in Proofs/Monetary.v",
                   "no axioms: every theorem of Properties/C13.v is closed under the global context"]
     R.assume += ["KV store / protobuf round trips are faithful (observed through the keepers' getters in the differential run)",
                  "sdk.Int values stay below 2^256 (no Int overflow panic modelled); balances of module accounts are not modelled",
                  "transaction / proposal atomicity: a rejected or panicking operation leaves no trace (the harness runs every operation on a cache context and commits on success only)",
                  "block = distributor BeginBlocker, ubi EndBlocker, distributor EndBlocker (the only block handlers that mint the native token: C13_mint_sites_sanctioned); proposer unknown to x/staking, so reward distribution moves no supply",
+                 "initial state: the genesis UBI record alone (6,087,375 per year) exceeds the default UbiHardcap 6,000,000 and ubi InitGenesis does not validate it; the property constrains acceptance, so the check does not flag the initial state -- it reports it in coverage.initial_state, and C13_ubi_over_cap_rejects states what follows (nothing more is accepted until the cap is raised or a record removed)",
+                 "burns: registry BurnCoins keeps recorded - bank supply constant (C13_registry_supply_tracks_mints covers OBurn); the two multistaking share-token burns go to the bank directly (C13_mint_sites_sanctioned: burns_bypassing_registry), so the recorded supply of v<id>/ share tokens is only an upper bound of their bank supply -- growth still equals registry mints",
                  "annual gate read as: no minting in a block that STARTS with growth >= maxann * monthIndex / 12 + 2e-18 over the year-start snapshot (monthIndex not capped at 12, as in the code)",
                  "inflation bound read with ceiling: target <= snapshot + ceil(snapshot * rate * dt / period); the floor form is refuted by half-even rounding (C13_inflation_le_floor_target_refuted)"]
     R.gen("gen_mintburn", "MintBurn.v")
@@ -98,7 +100,8 @@ def run(R):
                  "first mismatching histories: " + json.dumps([cases[i] for i in mism[:2]])[:6000])
         report(R, cases, viol)
         R.samples = [{"history": c["index"], "kind": c["kind"], "init": c["init"], "ops": c["ops"][:3]} for c in (cases[0], cases[2], cases[len(cases) // 2])]
-        R.coverage.update({"traces_validated_against_impl": total, "operations": nops,
+        dist = json.load(open(os.path.join(out, "dist.json")))
+        R.coverage.update({"traces_validated_against_impl": total, "operations": nops, "initial_state": dist.get("initial_state"),
                            "input_distribution": json.load(open(os.path.join(out, "dist.json")))})
     # a broken proof / translator / correspondence without a concrete failing input: widen the search
     if R.broken and not [v for v in R.violations]:
